@@ -72,9 +72,16 @@ package helpers
 //@   ensures[monotone_end] old(exhausted(db)) ==> exhausted(db)
 
 // ---- C07: mode and modification time need a UnixFS (dag-pb) node to live in -----------------
+// either attribute alone is enough to ask for a UnixFS node; references into files (filestore) never carry them
 //@ func (*DagBuilderHelper).HasFileAttributes
-//@   assumed
-//@   pure
+//@   prop C07
+//@   arith int
+//@   requires db != nil
+//@   modifies nothing
+//@   ensures[a_requested_mode_alone_is_enough] db.fullPath == "" && db.fileMode != 0 ==> result
+//@   ensures[never_for_file_references] db.fullPath != "" ==> !result
+//@   ensures[nothing_requested_nothing_carried] db.fullPath == "" && db.fileMode == 0 && called("call:Time.IsZero#0") && res("call:Time.IsZero#0") ==> !result
+//@   ensures[a_requested_mtime_alone_is_enough] db.fullPath == "" && db.fileMode == 0 ==> called("call:Time.IsZero#0") && (!res("call:Time.IsZero#0") ==> result)
 // the requested mode (permission bits and setuid/setgid/sticky alike) and modification time go into the
 // node's UnixFS data exactly as requested, and the re-encoded data is written back to the node
 //@ func (*DagBuilderHelper).SetFileAttributes
